@@ -1,8 +1,12 @@
 /-
 C10 — ungroup_notes after group_notes returns the surviving notes, in order.
-Property theorems only; helper lemmas live in Simfile/Lemmas/Ungroup*.lean.
+With same-beat joining by type: the same notes, rearranged, beats non-decreasing. `group_notes` never puts a
+note inside a joined hold of its column; what the `orphaned_notes` policy of `ungroup_notes` does when
+someone else did. Property theorems only; helper lemmas live in Simfile/Lemmas/Ungroup*.lean.
 -/
 import Simfile.Lemmas.UngroupJoin
+import Simfile.Lemmas.UngroupMore
+import Simfile.Lemmas.UngroupByType
 import Simfile.Props.C09
 namespace Simfile.C10
 open Simfile
@@ -114,5 +118,160 @@ example :
       .ok [nt 0 0 cHOLD, nt 1 0 cTAIL] ∧
     Spec.survivors (exOpts .keep .keep .keepSeparate) ns = ns := by
   refine ⟨?_, ?_⟩ <;> decide +kernel
+
+/-! ### same-beat joining by type: the rows are reordered, the notes are the same -/
+
+theorem SortedStream.player {ns : List Note} (hs : SortedStream ns) : ∃ p0, ∀ a ∈ ns, a.player = p0 := by
+  cases ns with
+  | nil => exact ⟨0, by simp⟩
+  | cons x r => exact ⟨x.player, fun a ha => hs.onePlayer a ha x (by simp)⟩
+
+/-- with same-beat joining by type (which puts the notes of a row in order of type), whenever
+`group_notes` does not raise, `ungroup_notes` (any policy) returns the surviving notes — nothing
+added, dropped or duplicated — rearranged, with non-decreasing beats -/
+theorem roundtrip_by_type (o : GOpts) (ns : List Note) (hs : SortedStream ns) (hmode : o.sameBeat = .joinByType)
+    (p : Orphan) (g : List (List GNote)) (hg : groupNotes o ns = .ok g) :
+    ∃ out, ungroupNotes p g = .ok out ∧ out.Perm (Spec.survivors o ns) ∧
+      (out.map (·.beat)).Pairwise (· ≤ ·) := by
+  obtain ⟨p0, hp0⟩ := hs.player
+  have hsF : Ungroup.Sorted (ns.filter fun n => o.incl.contains n.ntype) := hs.sorted.sublist List.filter_sublist
+  have hplF : ∀ a ∈ ns.filter fun n => o.incl.contains n.ntype, a.player = p0 :=
+    fun a ha => hp0 a (List.mem_of_mem_filter ha)
+  cases hj : o.join with
+  | false =>
+    rw [C09.rows_join_off o ns hj, hmode] at hg
+    have hg' := Except.ok.inj hg
+    have hsv : Spec.survivors o ns = ns.filter fun n => o.incl.contains n.ntype := by simp [Spec.survivors, hj]
+    rw [hsv]
+    exact Ungroup.ungroup_byType_plain p _ hsF p0 hplF g (by rw [← hg']; rfl)
+  | true =>
+    have hnd : ns.Nodup := hs.sorted.imp fun {a b} h e => by
+      subst e; rw [Ungroup.keyLt_irrefl] at h; cases h
+    rw [C09.group_refines_spec o ns hnd] at hg
+    unfold Spec.groupSpec at hg
+    simp only [hj, if_true] at hg
+    cases hS : Spec.joinSpec o (ns.filter fun n => o.incl.contains n.ntype) with
+    | error e => rw [hS] at hg; cases hg
+    | ok S =>
+      rw [hS, hmode] at hg
+      have hg' := Except.ok.inj hg
+      rw [Ungroup.survivors_eq o ns hj]
+      exact Ungroup.ungroup_byType_joinSpec o p _ S hsF p0 hplF
+        (fun n hn => hs.tailsPlain n (List.mem_of_mem_filter hn)) hS g (by rw [← hg']; rfl)
+
+/-! ### `group_notes` never puts a note inside a joined hold of its column -/
+
+/-- in the output of `group_notes` (every option combination), every item that follows a joined head
+on the head's column lies after the position of the head's tail -/
+theorem never_inside_static (o : GOpts) (ns : List Note) (hs : SortedStream ns) (g : List (List GNote))
+    (hg : groupNotes o ns = .ok g) :
+    g.flatten.Pairwise fun a x => ∀ h tb, a = .withTail h tb → x.column = h.column →
+      keyLt (h.player, tb, h.column) x.key = true := by
+  obtain ⟨p0, hp0⟩ := hs.player
+  exact (Ungroup.groups_weak o ns hs.sorted p0 hp0 g hg).pni.imp fun {a x} h hd tb e hc =>
+    (Ungroup.keyLt_iff _ _).mpr (h hd tb e hc)
+
+/-- in beats: no item of the head's column lies after the head and not after the tail -/
+theorem never_inside_beats (o : GOpts) (ns : List Note) (hs : SortedStream ns) (g : List (List GNote))
+    (hg : groupNotes o ns = .ok g) (h : Note) (tb : Rat) (ha : GNote.withTail h tb ∈ g.flatten)
+    (x : GNote) (hx : x ∈ g.flatten) (hc : x.column = h.column) (hb : h.beat < x.beat) : tb < x.beat := by
+  obtain ⟨p0, hp0⟩ := hs.player
+  exact Ungroup.weak_never_between (Ungroup.groups_weak o ns hs.sorted p0 hp0 g hg) h tb ha x hx hc hb
+
+/-- so the `check_orphan` condition of `ungroup_notes` is never met on the output of `group_notes`:
+whenever an item is reached, no tail is pending on its column -/
+theorem never_inside (o : GOpts) (ns : List Note) (hs : SortedStream ns) (p : Orphan) (g : List (List GNote))
+    (hg : groupNotes o ns = .ok g) (A B : List GNote) (x : GNote) (hsplit : g.flatten = A ++ x :: B) :
+    ∃ s, A.foldlM (ungroupStep p) { pending := [], out := [] } = .ok s ∧
+      Ungroup.inside s.pending (Ungroup.headOf x) = false := by
+  obtain ⟨p0, hp0⟩ := hs.player
+  have hw := Ungroup.groups_weak o ns hs.sorted p0 hp0 g hg
+  rw [hsplit] at hw
+  exact Ungroup.never_inside_weak p A B x hw
+
+/-- … and the `orphaned_notes` policy makes no difference -/
+theorem policy_irrelevant (o : GOpts) (ns : List Note) (hs : SortedStream ns) (p p' : Orphan)
+    (g : List (List GNote)) (hg : groupNotes o ns = .ok g) : ungroupNotes p g = ungroupNotes p' g := by
+  obtain ⟨p0, hp0⟩ := hs.player
+  exact Ungroup.policy_irrelevant_weak p p' g (Ungroup.groups_weak o ns hs.sorted p0 hp0 g hg)
+
+-- non-vacuity: `exStream` grouped by type (beat 6 holds a mine and a kept orphan tail)
+example : (groupNotes (exOpts .drop .keep .joinByType) exStream).bind (ungroupNotes .raise) =
+    .ok [nt 0 0 cHOLD, nt 1 1 cHOLD, nt 2 0 cTAIL, nt 3 1 cTAIL, nt 5 2 cTAP, nt 6 1 cMINE, nt 6 3 cTAIL] := by
+  decide +kernel
+/-- a row that joining by type reorders, with a hold ending on that beat -/
+example :
+    let ns := [nt 0 1 cHOLD, nt 1 0 cMINE, nt 1 1 cTAIL, nt 1 2 cTAP, nt 1 3 cMINE]
+    SortedStream ns ∧
+    (groupNotes (exOpts .raise .raise .joinByType) ns).bind (ungroupNotes .raise) =
+      .ok [nt 0 1 cHOLD, nt 1 0 cMINE, nt 1 1 cTAIL, nt 1 3 cMINE, nt 1 2 cTAP] ∧
+    Spec.survivors (exOpts .raise .raise .joinByType) ns = ns := by
+  refine ⟨⟨?_, ?_, ?_⟩, ?_, ?_⟩ <;> decide +kernel
+
+/-! ### a note inside a joined hold of its own column: the `orphaned_notes` policy of `ungroup_notes`
+
+`Ungroup.inside pending n`: after the tails before `n` have been yielded, a tail is still pending on
+`n`'s column. The statements are about one step of the loop, from an ARBITRARY state. -/
+
+/-- an unreached pending tail on the note's column puts the note inside a hold -/
+theorem inside_hold_of_pending (s : UState) (n t : Note) (ht : t ∈ s.pending) (hc : t.column = n.column)
+    (hk : keyLt t.key n.key = false) : Ungroup.inside s.pending n = true :=
+  Ungroup.inside_of_mem ht hc hk
+
+/-- RAISE raises; KEEP yields the reached tails, then the note; DROP yields the reached tails only;
+KEEP and DROP leave the same tails pending -/
+theorem inside_hold_policy (s : UState) (n : Note) (h : Ungroup.inside s.pending n = true) :
+    ungroupStep .raise s (.plain n) = .error .orphaned ∧
+    ungroupStep .keep s (.plain n) =
+      .ok { pending := (popReached n.key s.pending).2, out := s.out ++ (popReached n.key s.pending).1 ++ [n] } ∧
+    ungroupStep .drop s (.plain n) =
+      .ok { pending := (popReached n.key s.pending).2, out := s.out ++ (popReached n.key s.pending).1 } :=
+  Ungroup.step_plain_inside s n h
+
+/-- the same for the head of a joined hold that lies inside another hold of its column; its own tail
+becomes pending under KEEP and under DROP alike -/
+theorem inside_hold_policy_head (s : UState) (hd : Note) (tb : Rat) (h : Ungroup.inside s.pending hd = true) :
+    ungroupStep .raise s (.withTail hd tb) = .error .orphaned ∧
+    ungroupStep .keep s (.withTail hd tb) =
+      .ok { pending := heapInsert (Ungroup.recon hd tb) (popReached hd.key s.pending).2,
+            out := s.out ++ (popReached hd.key s.pending).1 ++ [hd] } ∧
+    ungroupStep .drop s (.withTail hd tb) =
+      .ok { pending := heapInsert (Ungroup.recon hd tb) (popReached hd.key s.pending).2,
+            out := s.out ++ (popReached hd.key s.pending).1 } :=
+  Ungroup.step_withTail_inside s hd tb h
+
+/-- outside every hold of its column a note is yielded whatever the policy -/
+theorem outside_hold_any_policy (p : Orphan) (s : UState) (n : Note) (h : Ungroup.inside s.pending n = false) :
+    ungroupStep p s (.plain n) =
+      .ok { pending := (popReached n.key s.pending).2, out := s.out ++ (popReached n.key s.pending).1 ++ [n] } :=
+  Ungroup.step_plain_outside p s n h
+
+/-- on a position-ordered grouped sequence in which no joined head lies inside another hold of its
+column, `ungroup_notes` with DROP returns what KEEP returns on the sequence without the splitting
+notes (`Ungroup.removeInside`) -/
+theorem inside_hold_drop_eq (groups : List (List GNote))
+    (hs : groups.flatten.Pairwise fun a b => keyLe a.key b.key = true)
+    (hn : Ungroup.NoHeadInside [] groups.flatten) :
+    ungroupNotes .drop groups = ungroupNotes .keep [Ungroup.removeInside [] groups.flatten] := by
+  rw [Ungroup.ungroupNotes_eq, Ungroup.ungroupNotes_eq]
+  simp only [List.flatten_cons, List.flatten_nil, List.append_nil]
+  exact Ungroup.drop_eq_keep_removed _ [] [] (hs.imp fun h => (Ungroup.keyLe_iff _ _).mp h) hn
+
+/-- a hold 0→4 on column 0 with a tap at beat 2 on column 0 and a mine at beat 2 on column 1 -/
+private def exSplit : List (List GNote) :=
+  [[.withTail (nt 0 0 cHOLD) 4], [.plain (nt 2 0 cTAP), .plain (nt 2 1 cMINE)]]
+
+example : ungroupNotes .raise exSplit = .error .orphaned := by decide +kernel
+example : ungroupNotes .keep exSplit =
+    .ok [nt 0 0 cHOLD, nt 2 0 cTAP, nt 2 1 cMINE, nt 4 0 cTAIL] := by decide +kernel
+example : ungroupNotes .drop exSplit = .ok [nt 0 0 cHOLD, nt 2 1 cMINE, nt 4 0 cTAIL] := by decide +kernel
+example : Ungroup.inside [nt 4 0 cTAIL] (nt 2 0 cTAP) = true ∧ Ungroup.inside [nt 4 0 cTAIL] (nt 2 1 cMINE) = false := by
+  constructor <;> decide +kernel
+example : Ungroup.removeInside [] exSplit.flatten = [.withTail (nt 0 0 cHOLD) 4, .plain (nt 2 1 cMINE)] ∧
+    (exSplit.flatten.Pairwise fun a b => keyLe a.key b.key = true) ∧ Ungroup.NoHeadInside [] exSplit.flatten := by
+  refine ⟨by decide +kernel, by decide +kernel, ?_⟩
+  simp only [exSplit, List.flatten_cons, List.flatten_nil, List.append_nil,
+    List.cons_append, List.nil_append, Ungroup.NoHeadInside, and_true]
+  decide +kernel
 
 end Simfile.C10
